@@ -12,7 +12,7 @@ ASSUMPTIONS = [
     'weights positive',
 ]
 OUTSIDE = ['degrees > 3 (quick) / 4 (thorough)', 'histories longer than 2 (quick) / 3 (thorough) insertions', 'unclamped knot vectors']
-BOUNDS = {'quick': 'curves p<=3, surfaces degrees<=2 (u,v,uv), volumes degrees<=2 one direction; num 1..p-s and p-s+1 (rejection); 2-step histories; shifted knot vectors (symbolic offset); same insertion on a sibling shape first',
+BOUNDS = {'quick': 'curves p<=3, surfaces degrees<=2 (u,v,uv), volumes degrees<=2 one direction; num 1..p-s and p-s+1 (rejection); 2-step histories; shifted knot vectors (symbolic offset); same insertion on a sibling shape first; tuple knot vectors; one num list re-used between calls; doubled point object at helper level',
           'thorough': 'curves p<=4, surfaces to (3,2), volumes all directions, 3-step histories'}
 
 
